@@ -240,6 +240,8 @@ class ComponentContext:
     # Position of the RenderContext layer that was pushed for this component. The layer right below it
     # belongs to the template that rendered this component (and that defined its fills).
     render_context_index: Optional[int] = None
+    # Whether the component was rendered with the `only` flag, so its template doesn't see the outer context.
+    is_only: bool = False
 
 
 class Component(
@@ -1076,6 +1078,7 @@ class Component(
             registry=self.registry,
             post_render_callbacks=post_render_callbacks,
             render_context_index=len(context.render_context.dicts) - 1,
+            is_only=getattr(self, "_is_only", False),
         )
 
         # Instead of passing the ComponentContext directly through the Context, the entry on the Context
@@ -1623,6 +1626,8 @@ class ComponentNode(BaseNode):
         # Prevent outer context from leaking into the template of the component
         if self.flags[COMP_ONLY_FLAG] or self.registry.settings.context_behavior == ContextBehavior.ISOLATED:
             context = make_isolated_context_copy(context)
+            # Same as with the "isolated" context behavior, the fills are then rendered with the outer context
+            component._is_only = self.flags[COMP_ONLY_FLAG]
 
         output = component._render(
             context=context,
